@@ -1,0 +1,42 @@
+//go:build verif
+
+package db
+
+// Verification-only exports (build tag verif). Constructors for the internal layered
+// stores so an external harness can compare each layer with a formal model.
+
+// RawDB is the exported face of the internal raw (pre enable-delete) store interface.
+type RawDB interface {
+	Get([]byte) ([]byte, error)
+	Has([]byte) (bool, error)
+	Put(key, value []byte) error
+	NewIterator(prefix []byte) StorageIterator
+}
+
+func NewRawMemDBVerif() RawDB { return newMemDBInternal() }
+
+func NewMergedVerif(layers []RawDB) RawDB {
+	dbs := make([]db, len(layers))
+	for i := range layers {
+		dbs[i] = layers[i].(db)
+	}
+	return newMergedDb(dbs)
+}
+
+func NewSkipDeleteVerif(r RawDB) RawDB { return newSkipDelete(r.(db)) }
+
+func NewSubDBVerif(prefix []byte, r RawDB) RawDB { return newSubDB(prefix, r.(db)) }
+
+func EnableDeleteVerif(r RawDB) DB { return enableDelete(r.(db)) }
+
+func ApplyWithoutOverrideVerif(r RawDB, patch Patch) error {
+	return ApplyWithoutOverride(r.(db), patch)
+}
+
+func CacheConstantsVerif() (l1, l2, maxDiff int) {
+	return l1CacheSize, l2CacheSize, maximumCacheHeightDifference
+}
+
+func KeyPrefixesVerif() (frontier, patch, rollback, frontierIdentifier, heightByHash, entryByHeight []byte) {
+	return frontierByte, patchByte, rollbackByte, frontierIdentifierKey, heightByHashPrefix, entryByHeightPrefix
+}
